@@ -428,7 +428,7 @@ pub fn run(tier: Tier) -> i32 {
     let mut ctx = Ctx::new("C09", tier);
     ctx.assume("'eventually' is checked as the bounded virtual-time deadlines the statement names (idle timeout) plus 500 ms slack for RTT/PTO skew and one sampling step");
     ctx.assume("a crashed node is one whose datagrams vanish in both directions and which never closes anything");
-    ctx.run_part(Histories, tier.pick(8_000, 150_000));
+    ctx.run_part(Histories, tier.pick(8_000, 500_000));
     ctx.run_part_threads(DisconnectUnderContention, tier.pick(16, 400), 4);
     ctx.finish()
 }
